@@ -99,6 +99,11 @@ add("C18", ["v_derive_arith"], ["older_", "fam_older_", "fam_packed_"],
     level_text="For histories with AbiRemoved/added fields: the version-n definition writing version k produces exactly the version-k definition's bytes for the projected value and the version-k definition reads it back (all values); packed decision sound at every older version.",
     level_note="Bounded over definitions. Enum variants absent at k not covered.",
     technique="Kani contract harnesses over generated histories", trusted_base=TB)
+P["C05"]["native"] = ["pairs_diff"]
+P["C13"]["native"] = ["pairs_diff"]
+P["C11"]["native"] = ["pairs_layout"]
+P["C06"]["verus"].append("v_diff")       # diff_schema runs on untrusted schema bytes during load: no panic / no out-of-bounds
+P["C10"]["verus"].append("v_layout")     # the by-reference decision is part of version tolerance (differently versioned peers)
 json.dump(P, open(os.path.join(ROOT, "checks.json"), "w"), indent=1)
 for k, v in P.items():
     print(k, "verus", v["verus"], "kani quick", len(v["kani"]), "thorough +", len(v["kani_thorough"]))
